@@ -621,11 +621,11 @@ func (t tags) Len() int      { return len(t.t) }
 func (t tags) Swap(i, j int) { t.t[i], t.t[j] = t.t[j], t.t[i] }
 func (t tags) Less(i, j int) bool {
 	if !t.flat {
-		if t.t[i].Cum != t.t[j].Cum {
+		if abs64(t.t[i].Cum) != abs64(t.t[j].Cum) {
 			return abs64(t.t[i].Cum) > abs64(t.t[j].Cum)
 		}
 	}
-	if t.t[i].Flat != t.t[j].Flat {
+	if abs64(t.t[i].Flat) != abs64(t.t[j].Flat) {
 		return abs64(t.t[i].Flat) > abs64(t.t[j].Flat)
 	}
 	return t.t[i].Name < t.t[j].Name
@@ -1145,7 +1145,7 @@ func (el edgeList) Len() int {
 }
 
 func (el edgeList) Less(i, j int) bool {
-	if el[i].Weight != el[j].Weight {
+	if abs64(el[i].Weight) != abs64(el[j].Weight) {
 		return abs64(el[i].Weight) > abs64(el[j].Weight)
 	}
 
